@@ -151,3 +151,14 @@ claim(
     "Exchanges through real worker processes are C08's job; installed points are kept off the discontinuities of the 'cliff' target.",
     "Hypothesis model-based histories with reference re-evaluation",
 )
+claim(
+    "C14",
+    "Model-based: the chain is driven by generated histories while a recording posterior logs every evaluation; the full chain is validated as "
+    "an append-only log (grows by exactly the requested rows, earlier rows untouched, every new row was evaluated during the operation or repeats "
+    "the previous state, stored log-probability = own evaluation / T). Then generated read-outs (burn 0..len+3 incl. the 0- and 1-row edges, thin "
+    "1..len+3, any parameter, interval fractions, requested counts) must equal slices burn::thin of the model exactly, stay aligned, feed "
+    "get_marginal with exactly those values, and get_interval must return 2-D/1-D arrays of (row, log-probability) pairs of the burned and "
+    "thinned chain from the documented top fraction: all of it without a count, at most the count otherwise.",
+    "get_interval's documented thin override for requested counts is part of the model; ties at the cut are compared as multisets of probabilities.",
+    "Hypothesis model-based histories with append-only log model",
+)
